@@ -86,6 +86,11 @@ func (c *ctx) tag(k string) { c.hist[k]++ }
 
 func main() {
 	log.SetOutput(io.Discard) // the code under test logs per request; answers go to files
+	if len(os.Args) >= 3 && os.Args[1] == "child" && os.Args[2] == "run" {
+		log.SetOutput(os.Stderr)
+		binsigChild(os.Args[3:])
+		return
+	}
 	if len(os.Args) >= 3 && os.Args[1] == "child" && os.Args[2] == "survive" {
 		fmt.Println(surviveChild(os.Args[3:]))
 		return
